@@ -2,6 +2,7 @@ import AdaVerif.Gen.ParserExits
 import AdaVerif.Gen.Tables
 import AdaVerif.Lemmas.Guard
 import AdaVerif.Base.Bytes
+import AdaVerif.Lemmas.ParseBase
 /-
 C09 — The configured maximum length bounds every URL the library hands out.
 
@@ -78,5 +79,50 @@ example : ∃ e ∈ Gen.parserExits, mayReturnValidStored e = true ∧ e.sizeChe
 example : (Gen.parserExits.filter mayReturnValidStored).length = 6 := by decide
 example : guarded List.length 4 (fun (s : List Nat) => some (s ++ [9, 9])) [1, 2, 3] = ([1, 2, 3], false) := by decide
 example : guarded List.length 5 (fun (s : List Nat) => some (s ++ [9, 9])) [1, 2, 3] = ([1, 2, 3, 9, 9], true) := by decide
+
+/-! ### the parser of `ada::url` under a limit
+
+`Model/ParseSpecial.lean` (`limited`) puts the entry check on the raw input and `enforce_max_length()` around the state
+machine that C01 proves equal to the Standard's parser; the exit table above is what justifies "around": every exit
+through which a valid URL leaves is dominated by the size check.  The limited model is run against `ada::parse<ada::url>`
+under `set_max_input_length` in C01's L1 runs (about a third of the calls carry a limit within a few bytes of the sizes
+involved). -/
+
+open AdaVerif.Model.ParseSpecial AdaVerif.Model.UrlRec in
+/-- whatever the limited parser hands out fits the limit, and so did the input - without and with a base -/
+theorem parser_result_within_limit (idna : Spec.Idna) (L : Nat) (input : Bytes) (r : Rec) :
+    (parseNoBaseL idna L input = .ok r → getHrefSize r ≤ L ∧ input.length ≤ L) ∧
+    (∀ b, parseWithBaseL idna L b input = .ok r → getHrefSize r ≤ L ∧ input.length ≤ L) := by
+  have key : ∀ o, limited L input o = .ok r → getHrefSize r ≤ L ∧ input.length ≤ L := by
+    intro o h
+    unfold limited at h
+    split at h
+    · cases h
+    · rename_i hin
+      split at h
+      · rename_i r'
+        split at h
+        · cases h
+        · rename_i hs
+          injection h with h
+          subst h
+          exact ⟨by omega, by omega⟩
+      · cases h
+  exact ⟨key _, fun b => key _⟩
+
+open AdaVerif.Model.ParseSpecial AdaVerif.Lemmas.PB in
+/-- the limit changes nothing but refusals: within it, the limited parser answers what the Standard's parser answers
+    (C01's theorem, same side conditions), and it refuses exactly when the input or the normalized href is too long -/
+theorem parser_limit_transparent (idna : Spec.Idna) (L : Nat) (input : Bytes) (hid : ∀ d, HP.IdnaAt idna d)
+    (hclean : HS.bracketClean (schemeSpecial input) false (hostStart input) = true) :
+    parseNoBaseL idna L input = outOfL L input (Spec.parse idna input none) := by
+  unfold parseNoBaseL
+  rw [PS.parseNoBase_spec idna input hid hclean, limited_outOf]
+
+/-- worked instance: "http://h/a b" (12 bytes) normalizes to 14 bytes -/
+example : AdaVerif.Model.ParseSpecial.parseNoBaseL ⟨fun _ => none⟩ 13 (ofStr "http://h/a b") = .invalid ∧
+    AdaVerif.Model.ParseSpecial.parseNoBaseL ⟨fun _ => none⟩ 14 (ofStr "http://h/a b") =
+      AdaVerif.Model.ParseSpecial.parseNoBase ⟨fun _ => none⟩ (ofStr "http://h/a b") ∧
+    AdaVerif.Model.ParseSpecial.parseNoBase ⟨fun _ => none⟩ (ofStr "http://h/a b") ≠ .invalid := by decide +kernel
 
 end AdaVerif.Props.C09
